@@ -1,5 +1,6 @@
 import Driver.Util
 import LiquidVerif.Model.LoopLimit
+import LiquidVerif.Model.LoopLimitModes
 open Lean LiquidVerif.LoopLimit
 
 namespace Driver.C06
@@ -83,6 +84,69 @@ def handleWith (full : Bool) (args : List Json) : Json :=
 def handle := handleWith false
 def handleFull := handleWith true
 
-def commands : List (String × (List Lean.Json → Lean.Json)) := [("c06", handle), ("c06full", handleFull)]
+/-! ### all-modes model (`Model/LoopLimitModes.lean`) -/
+namespace X
+open LiquidVerif.LoopLimitModes
+
+mutual
+partial def parseNode (j : Json) : Option LiquidVerif.LoopLimitModes.Node := do
+  let xs ← asArr? j
+  match xs with
+  | [.str "mark", id] => pure (.mark (← asNat? id))
+  | [.str "break"] => pure .brk
+  | [.str "continue"] => pure .cont
+  | [.str "blk", t, body] => pure (.blk (← asBool? t) (← parseNodes body))
+  | [.str "for", id, n, body, dflt] => pure (.forn (← asNat? id) (← asNat? n) (← parseNodes body) (← parseNodes dflt))
+  | [.str "tablerow", id, n, body] => pure (.tablerow (← asNat? id) (← asNat? n) (← parseNodes body))
+  | [.str "include", site, name, b] => pure (.include (← asNat? site) (← asStr? name) (← optNat? b))
+  | [.str "render", site, name, b] => pure (.render (← asNat? site) (← asStr? name) (← optNat? b))
+  | [.str "macro", name, body] => pure (.macro (← asStr? name) (← parseNodes body))
+  | [.str "call", name] => pure (.call (← asStr? name))
+  | _ => none
+partial def parseNodes (j : Json) : Option (List LiquidVerif.LoopLimitModes.Node) := do
+  let xs ← asArr? j
+  xs.mapM parseNode
+end
+
+def errName : ErrX → String
+  | .loopLimit => "LoopIterationLimitError"
+  | .contextDepth => "ContextDepthError"
+  | .notFound => "TemplateNotFoundError"
+  | .disabledTag => "DisabledTagError"
+  | .syntax => "LiquidSyntaxError"
+
+def runJson (E : LiquidVerif.LoopLimitModes.Env) (main : List LiquidVerif.LoopLimitModes.Node) : Json :=
+  let o := renderTemplate E main
+  let res := match o.sig with
+    | .normal => "ok"
+    | .err e => errName e
+    | .brk => "BreakLoop"
+    | .cont => "ContinueLoop"
+  -- a raised error discards the output: only a completed render is observable
+  let tr := if res == "ok" then o.tr else []
+  Json.mkObj [("result", jstr res), ("n", jnat tr.length),
+              ("max", jnat (tr.foldl (fun a e => max a (prod e.enclosing)) 0)),
+              ("digest", jstr (toString (digest tr))), ("head", jstr (headStr tr)),
+              ("suppressed", jarr (o.sup.map fun e => jstr (errName e)))]
+
+/-- `["c06x", strict, [limit|null …], depth, [[name, nodes]…], nodes]` → `{"runs": […]}` -/
+def handle (args : List Json) : Json :=
+  match args with
+  | [strict, lims, depth, tpls, main] =>
+    let tp : Option LiquidVerif.LoopLimitModes.Tpls := do
+      let xs ← asArr? tpls
+      xs.mapM fun p => do
+        match ← asArr? p with
+        | [name, body] => pure ((← asStr? name), (← parseNodes body))
+        | _ => none
+    match asBool? strict, parseLimits lims, asNat? depth, tp, parseNodes main with
+    | some strict, some lims, some depth, some tpls, some main =>
+      Json.mkObj [("runs", jarr (lims.map fun l => runJson { limit := l, depth := depth, templates := tpls, strict := strict } main))]
+    | _, _, _, _, _ => jerr "bad-case"
+  | _ => jerr "bad-args"
+end X
+
+def commands : List (String × (List Lean.Json → Lean.Json)) :=
+  [("c06", handle), ("c06full", handleFull), ("c06x", X.handle)]
 
 end Driver.C06
